@@ -8,6 +8,7 @@ runs; prefix locality and suffix resynchronisation on edited inputs; size bounds
 import hashlib, os, random, re, concurrent.futures as cf
 import re
 import vlib
+import zckfmt
 
 THEOREMS = ["C16_batching_invisible", "C16_segmentation_auto", "C16_write_split", "C16_segmentation_manual",
             "C16_segmentation_file", "C16_comp_init_limits", "C16_byte_terminates", "C16_write_terminates",
@@ -505,6 +506,8 @@ def run(res, tier, only_case=None):
     env = {"ZH_CASE_TIMEOUT": "10"}       # the slowest legitimate case takes well under a second
     nsh = max(2, min(12, vlib.NCPU - 2))
 
+    if only_case is not None and only_case["case"].get("tool"):
+        return tool_part(res, tier, only_case["case"])
     if only_case is not None:
         recipes = only_case["case"]["recipes"]
         lines = [line_of(rc, store) for rc in recipes]
@@ -604,6 +607,89 @@ def run(res, tier, only_case=None):
     for k in (0, len(recipes) // 3, len(recipes) // 2, len(recipes) - 1):
         res.sample({"case": group_key(recipes[k]) + " ops " + recipes[k]["ops"][:30], "impl": io[k][:160], "model": mo_all[k][:120]})
     res.count("segmentations", len(rec2))
+    vlib.shutil.rmtree(wd, ignore_errors=True)
+    res.rule += (" || zck tool: 7 contents with the split string at the start, doubled, adjacent, on and around the 32 KiB read block edge x "
+                 "options {none,zstd}x{-m} (+ -u thorough) x read() partitions (regular file, 32 KiB FIFO blocks, a read boundary at, 1 byte into, "
+                 "at the last byte of and right behind every occurrence, random): all archives of one (content, options) byte-identical")
+    tool_part(res, tier)
+
+
+def tool_part(res, tier, only=None):
+    """the zck tool hands the library what its read() calls return: the archive must be a function of content and options
+    only, whatever the partition of the input into read() results (regular file = natural 32 KiB blocks; FIFO = controlled)"""
+    from props import c01tool as T
+    rng = vlib.Rng(vlib.seed() * 31 + 5)
+    wd = vlib.scratch("C16tool")
+    zck = vlib.ensure_tool("zck", "asan")
+    osets = {o[0]: o for o in T.opt_sets(os.path.join(wd, "nodict"))}
+    S = T.S_TEXT
+    B = T.BUF
+    conts = []
+    if only is not None:
+        conts = [(only["name"], bytes.fromhex(only["content"]), bytes.fromhex(only["split"]), only["opt"], [None if x is None else list(x) for x in only["partitions"]])]
+    else:
+        def parts_for(n, marks):
+            ps = [None, [min(B, n - i) for i in range(0, n, B)] if n else []]
+            for m in marks:
+                for d in (0, 1, len(S) - 1, len(S)):
+                    c = m + d
+                    if 0 < c < n:
+                        ps.append(T.partitions_around(n, [c]))
+            ps.append(T.random_partition(rng, n, [1, 5, 100, 4000, B]))
+            return ps
+        base = [("twice", S + S + b"z", [0, len(S)]),
+                ("start", S + T.filler(300), [0]),
+                ("adjacent3", b"ab" + S * 3 + b"tail", [2, 2 + len(S), 2 + 2 * len(S)]),
+                ("edge0", T.filler(B) + S + T.filler(50, 1), [B]),
+                ("edge-3", T.filler(B - 3) + S + T.filler(50, 2), [B - 3]),
+                ("edge2x", T.filler(B - len(S)) + S + S + T.filler(70, 3), [B - len(S), B]),
+                ("ends-in-prefix", T.filler(100) + S + T.filler(10) + S[:3], [100])]
+        for name, c, marks in base:
+            for o in (["none-m", "zstd-m", "none"] if tier == "quick" else ["none-m", "zstd-m", "none", "zstd", "none-m-u"]):
+                conts.append((name, c, S, o, parts_for(len(c), marks)))
+    jobs = []
+    for ci, (name, c, sp, o, ps) in enumerate(conts):
+        for pi, pt in enumerate(ps):
+            if pt is not None and (sum(pt) != len(c) or not all(0 < b <= B for b in pt)):
+                continue
+            cs = T.Case(name, c, pt, sp, "c16")
+            cs.opt = osets[o]
+            jobs.append((ci, pi, cs))
+
+    def work(j):
+        ci, pi, cs = j
+        r = T.run_zck(zck, cs, os.path.join(wd, "t%d_%d" % (ci, pi)))
+        data = open(r["out"], "rb").read() if r["rc"] == 0 and os.path.exists(r["out"]) else None
+        return ci, pi, r["rc"], data, r["err"]
+    with cf.ThreadPoolExecutor(max_workers=max(2, vlib.NCPU - 2)) as ex:
+        outs = list(ex.map(work, jobs))
+    by = {}
+    for ci, pi, rc, data, err in outs:
+        by.setdefault(ci, []).append((pi, rc, data, err))
+    for ci, lst in sorted(by.items()):
+        name, c, sp, o, ps = conts[ci]
+        res.evaluations += len(lst)
+        res.count("tool:" + o, len(lst))
+        case = {"tool": True, "name": name, "content": c.hex(), "split": sp.hex(), "opt": o, "partitions": ps}
+        ref = None
+        for pi, rc, data, err in lst:
+            if data is None:
+                res.violation("oracle", "c16:tool:%s:%s" % (name, o), "zck -s fails (%d) on a valid input %s: %s" % (rc, name, vlib.san_summary(err) or err[-200:]), case)
+                break
+            if ref is None:
+                ref = (pi, data)
+            elif data != ref[1]:
+                def table(d):
+                    try:
+                        return [x[2] for x in zckfmt.parse_file(d)[0].chunks][:12]
+                    except Exception:
+                        return "?"
+                res.violation("oracle", "c16:tool:%s:%s" % (name, o),
+                              "zck %s -s %r on the same %d input bytes (%s) produces different archives for different read() partitions: %s -> stored sizes %s, %s -> %s"
+                              % (o, sp, len(c), name, "file" if ps[ref[0]] is None else ps[ref[0]][:6], table(ref[1]), "file" if ps[pi] is None else ps[pi][:6], table(data)), case)
+                break
+        else:
+            res.nontrivial.add("tool:%s:%s" % (name, o))
     vlib.shutil.rmtree(wd, ignore_errors=True)
 
 
